@@ -19,6 +19,9 @@ ASSUMPTIONS = ["E2: AEON BDD restriction decides constancy on a subspace; E3: AE
 
 
 
+ORDER = 0.2      # share of cases with a non-alphabetical declared variable order
+
+
 def budget(tier):
     return 1200 if tier == "quick" else 12000
 
@@ -35,7 +38,10 @@ def gen_case(rng, tier, k):
     spaces = []
     for _ in range(6):
         m = rng.random()
-        if m < 0.25:
+        if m < 0.12:
+            # a complete assignment (every variable given)
+            spaces.append([[j, rng.randint(0, 1)] for j in range(8)])
+        elif m < 0.3:
             spaces.append([[rng.randrange(64), rng.randint(0, 1)]])
         else:
             spaces.append([[rng.randrange(64), rng.randint(0, 1)] for _ in range(rng.randint(0, 4))])
